@@ -421,6 +421,9 @@ type checkOpts struct {
 	// when the text has no comment (without the generator's knowledge of where a comment sits
 	// relative to its statement a failure could not be told from the known placement defects).
 	mutant bool
+	// posFirst: the text is a minimal program of the positions family (no other peculiarity than where
+	// a comment / a line break sits): the per-position ablation is tried before the coarse one, no shrinking.
+	posFirst bool
 }
 
 type outcome struct {
@@ -683,10 +686,64 @@ var kindOf = map[string]string{
 func classify(src string, res outcome, o checkOpts, g *genCtx) []finding {
 	var out []finding
 	seen := map[string]bool{}
+	// the per-position attribution concerns the oracle kind: done once per kind and input
+	posDone := map[string]bool{}
+	posRes := map[string][]posClass{}
+	positionalOnce := func(oracle string) []posClass {
+		k := kindOf[oracle]
+		if !posDone[k] {
+			posDone[k] = true
+			posRes[k] = positionalRaw(src, oracle, o, g)
+		}
+		return posRes[k]
+	}
 	for _, rf := range res.raw {
 		key := rf.Key
 		if rf.Oracle != "" {
-			cause := attribute(src, rf.Oracle, o, g)
+			kind := kindOf[rf.Oracle]
+			var pcs []posClass
+			cause := ""
+			if o.posFirst && positionalKinds[kind] {
+				if pcs = positionalOnce(rf.Oracle); pcs != nil {
+					cause = "position"
+				}
+			}
+			if pcs == nil {
+				cause = attribute(src, rf.Oracle, o, g)
+			}
+			// Per-position keys are emitted for the bounded-exhaustive positions family only (its key set is
+			// a pure function of the tree, identical at every seed). For the random families the per-position
+			// classes did not close within this round (nested data-type gaps such as lbrack|lbrack, rbrack|map
+			// combine freely): they keep the coarse cause keys. positionalEverywhere switches the refinement on.
+			if positionalKinds[kind] && (pcs != nil || (positionalCauses[cause] && positionalEverywhere)) {
+				// the cause is where a comment / a line break sits: one key per attributed position
+				if pcs == nil && !o.posFirst {
+					pcs = positionalOnce(rf.Oracle)
+				}
+				if pcs != nil {
+					for _, pc := range pcs {
+						k := "C20/" + kind + "/" + pc.name(kind)
+						if seen[k] {
+							continue
+						}
+						seen[k] = true
+						w := map[string]any{}
+						for wk, wv := range rf.Witness {
+							w[wk] = wv
+						}
+						var where []string
+						for _, u := range pc.units {
+							where = append(where, u.pos+"/"+u.variant+": "+clip(u.text, 120))
+						}
+						w["oracle"], w["cause"], w["detail"], w["position"] = rf.Oracle, cause, rf.Detail, where
+						out = append(out, finding{Key: k, What: rf.What + " [attributed by ablation to " + strings.Join(where, "; ") + "]", Witness: w, raw: rf})
+					}
+					continue
+				}
+				if coarseKeyRetired[cause] || (kind == "comments-altered" && (cause == "semicolon" || cause == "declares-nothing")) {
+					cause += "/unlocated:" + rf.Oracle + ":" + rf.Detail
+				}
+			}
 			key = "C20/" + kindOf[rf.Oracle] + "/" + cause
 			switch cause {
 			case "plain", "other-comment":
